@@ -501,6 +501,23 @@ def nest_lazy(ctx: Ctx) -> None:
     if loops:
         L = loops[0]
         grows = [(nid, s_) for nid, ss in pfl.sites.items() for s_ in ss if s_.kind == "assign" and pcfg.in_loop(nid, L.id) and s_.value is not None and any(isinstance(c, ast.Call) and isinstance(c.func, ast.Attribute) and c.func.attr in ("concat", "concatenate", "stack") for c in ast.walk(s_.value))]
+        # ... and no container defined outside the loop collects per-block data across iterations
+        loop_names = {s2.name for n2, ss in pfl.sites.items() for s2 in ss if pcfg.in_loop(n2, L.id)} | {x.id for x in ast.walk(L.stmt.target) if isinstance(x, ast.Name)}
+        collectors = []
+        for c in pr.own_nodes():
+            if isinstance(c, ast.Call) and isinstance(c.func, ast.Attribute) and c.func.attr in ("append", "extend", "insert", "add", "appendleft") and isinstance(c.func.value, ast.Name) and pcfg.has(c) and pcfg.in_loop(pcfg.node_of(c), L.id):
+                outside = any(not pcfg.in_loop(d_.node, L.id) for d_ in pfl.rdefs(c.func.value.id, pcfg.node_of(c)))
+                if outside and any(isinstance(x, ast.Name) and x.id in loop_names for a in c.args for x in ast.walk(a)):
+                    collectors.append(c)
+        ctx.ob(
+            pr,
+            collectors[0] if collectors else L.stmt,
+            not collectors,
+            "no container outlives an iteration of the block loop with per-block data in it"
+            + ("" if not collectors else f" — `{unparse(collectors[0], 50)}` keeps every block's reduced chunk until the loop ends: memory grows with the number of blocks in the group, beyond the two reduced chunks the projection reserves"),
+            sel="stream:no-collector",
+            props=["C03"],
+        )
         for nid, s_ in grows:
             reducers = {n2 for n2, ss in pfl.sites.items() for s2 in ss if s2.name == s_.name and s2.kind == "assign" and pcfg.in_loop(n2, L.id) and isinstance(s2.value, ast.Call) and any(t.kind == "param" for t in repo.resolve_call(s2.value, pr, pr.module)) and mentions_name(s2.value, s_.name)}
             ok = bool(reducers) and pcfg.all_paths_pass(nid, L.id, reducers)
